@@ -923,6 +923,8 @@ def run(ctx: Ctx, proofs_ok: bool):
         ctx.broken.append("C12 policy-level spec-on-impl crashed: %s" % traceback.format_exc()[-800:])
 
     mark("policy_level")
+    policy_rows(ctx, fail, torch, thorough)
+    mark("policy_rows")
     # ================================================================================== decision
     ctx.extra["spec_on_impl_failures"] = len(fails)
     by_sig = {}
@@ -1100,6 +1102,146 @@ def policy_level(ctx, built, fail, torch, ops, get_decoding_strategy, thorough):
     ctx.units["policy_level_spec_on_impl"] = {"rows_checked": n_checked}
 
 
+# ----------------------------------------------------------------------------------------- k-fold pass vs. the instance alone
+
+ROW_ENV_KW = {"tsp": dict(num_loc=6), "cvrp": dict(num_loc=6), "sdvrp": dict(num_loc=6),
+              "fjsp": dict(num_jobs=3, num_machines=2, min_ops_per_job=2, max_ops_per_job=3),
+              "jssp": dict(num_jobs=3, num_machines=2)}
+ROW_STATIC_ENVS = ("tsp", "cvrp")
+ROW_REQUIRED_ENVS = ("tsp", "cvrp", "sdvrp")
+
+
+def sig_rows(env_name):
+    return "am-decoder/%s: row j*B+b of a k-fold rollout is not decoded on instance b (cache layout)" % env_name
+
+
+def dynamic_embedding_envs():
+    """names of the env registry whose decoder embedding (rl4co.models.nn.env_embeddings.dynamic) is not the static one:
+    their cache cannot be shared between the replicas and is expanded by the decoder itself"""
+    from rl4co.envs import ENV_REGISTRY
+    from rl4co.models.nn.env_embeddings.dynamic import StaticEmbedding, env_dynamic_embedding
+    out = []
+    for name in sorted(ENV_REGISTRY):
+        try:
+            emb = env_dynamic_embedding(name, {"embed_dim": 8})
+        except Exception:      # noqa: BLE001
+            continue
+        if not isinstance(emb, StaticEmbedding):
+            out.append(name)
+    return out
+
+
+def rows_vs_single(torch, name, B, k, dt, seed, tol=1e-4):
+    """The real policy (random weights of generator seed `seed`, eval mode) decodes a batch of B instances k-fold
+    (dt = multistart_greedy: num_starts=k; dt = sampling: num_samples=k).  Row j*B+b of the outputs must be a rollout of
+    instance b: the SAME policy evaluates the row's actions on instance b alone (k plain copies of it, decode_type
+    evaluate, no replication machinery) and must reproduce the row's per-step log-probabilities (from step 1 on when
+    step 0 was a forced start) and its reward; greedy actions must be those of the k-fold pass on instance b alone.
+    -> ("ok", rows) | ("raises", reason: the k-fold pass itself raised) | ("tie", info) | ("fail", replay)"""
+    from rl4co.envs import get_env
+    torch.manual_seed(seed)
+    env = get_env(name, generator_params=dict(ROW_ENV_KW.get(name, {})))
+    if name in ("jssp", "fjsp"):
+        from rl4co.models.zoo.l2d.policy import L2DAttnPolicy
+        pol = L2DAttnPolicy(env_name=name, embed_dim=32, num_heads=2, num_encoder_layers=1)
+    else:
+        from rl4co.models.zoo.am import AttentionModelPolicy
+        pol = AttentionModelPolicy(env_name=name, embed_dim=32, num_encoder_layers=1, num_heads=2, feedforward_hidden=32)
+    pol.eval()
+    td0 = env.reset(batch_size=[B])
+    multistart = dt.startswith("multistart")
+    kw = dict(num_starts=k) if multistart else dict(num_samples=k, multisample=True)
+    with torch.no_grad():
+        try:
+            out = pol(td0.clone(), env, phase="test", decode_type=dt, return_actions=True, return_sum_log_likelihood=False, **kw)
+        except Exception as e:      # noqa: BLE001   no outputs, nothing to attribute to an instance (a raise is loud)
+            return "raises", repr(e)[:160]
+        acts, ll, rew = out["actions"], out["log_likelihood"], out["reward"]
+        base = {"kind_": "policy_row", "env": name, "generator_params": ROW_ENV_KW.get(name, {}), "policy": type(pol).__name__,
+                "B": B, "k": k, "decode_type": dt, "seed": seed}
+        if acts.shape[0] != k * B or ll.shape[0] != k * B or rew.shape[0] != k * B:
+            return "fail", dict(base, reason="wrong number of output rows", observed=list(acts.shape))
+        first = 1 if multistart else 0
+        T = acts.shape[1]
+        for b in range(B):
+            rows = [j * B + b for j in range(k)]
+            alone = td0[torch.tensor([b] * k)]
+            ref = pol(alone.clone(), env, phase="test", actions=acts[rows], return_actions=True, return_sum_log_likelihood=False)
+            rl, rr = ref["log_likelihood"], ref["reward"]
+            Tr = min(rl.shape[1], T)
+            for j, r in enumerate(rows):
+                dev = (ll[r, first:Tr] - rl[j, first:Tr]).abs()
+                rest = ll[r, Tr:].abs()
+                worst = float(dev.max()) if dev.numel() else 0.0
+                bad_ll = worst > tol or (rest.numel() and float(rest.max()) > tol)
+                bad_rew = abs(float(rew[r]) - float(rr[j])) > tol * (1 + abs(float(rr[j])))
+                if bad_ll or bad_rew:
+                    step = first + int(dev.argmax()) if dev.numel() else -1
+                    return "fail", dict(base, reason="log-probabilities / reward of the row differ from the same actions evaluated on instance b alone",
+                                        row=r, j=j, instance=b, actions_of_row=acts[r].tolist(), first_compared_step=first,
+                                        worst_step=step, worst_abs_deviation=worst,
+                                        observed_logp=[round(float(v), 6) for v in ll[r]], expected_logp=[round(float(v), 6) for v in rl[j]],
+                                        observed_reward=float(rew[r]), expected_reward=float(rr[j]))
+            if dt == "multistart_greedy":
+                one = pol(td0[b:b + 1].clone(), env, phase="test", decode_type=dt, return_actions=True, num_starts=k)["actions"]
+                T1 = min(one.shape[1], T)
+                mine = acts[rows]
+                if one.shape[0] == k and bool((one[:, 0] == mine[:, 0]).all()) and not (
+                        bool((one[:, :T1] == mine[:, :T1]).all()) and bool((mine[:, T1:] == mine[:, T1 - 1:T1]).all() or (mine[:, T1:] == 0).all())):
+                    # the per-step log-probabilities above agree, so this can only be an arg-max tie in float32
+                    return "tie", dict(base, instance=b, k_fold=mine.tolist(), alone=one.tolist())
+    return "ok", k * B
+
+
+def policy_rows(ctx, fail, torch, thorough):
+    dyn = dynamic_embedding_envs()
+    ctx.extra["dynamic_embedding_envs"] = dyn
+    names = dyn + [n for n in ROW_STATIC_ENVS if n not in dyn]
+    n_rows, n_cfg, skipped, failed_envs = 0, 0, {}, set()
+    for name in names:
+        for B in (2, 3) + ((4,) if thorough else ()):
+            for k in (2, 3, 4) + ((6,) if thorough else ()):
+                for dt in ("multistart_greedy", "sampling"):
+                    seed = ctx.rng.randrange(2 ** 31)
+                    meta = {"fn": "k-fold policy pass vs instance alone", "env": name, "B": B, "k": k, "decode_type": dt, "seed": seed}
+                    try:
+                        verdict, info = rows_vs_single(torch, name, B, k, dt, seed)
+                    except Exception as e:      # noqa: BLE001
+                        import traceback
+                        verdict, info = "error", traceback.format_exc()[-500:]
+                    ctx.seen(meta, nontrivial=True)
+                    ctx.count("policy_rows_%s" % verdict)
+                    if verdict == "ok":
+                        n_rows += info
+                        n_cfg += 1
+                        ctx.count("policy_rows_cfg_%s" % name)
+                    elif verdict == "fail":
+                        failed_envs.add(name)
+                        fail(sig_rows(name), info, "rows_" + name)
+                    elif verdict == "tie":
+                        ctx.notes.append("k-fold vs alone: greedy actions differ although every per-step log-probability agrees (float tie): %s" % str(info)[:300])
+                    elif verdict == "raises":
+                        skipped["%s/%s" % (name, dt)] = info
+                    else:
+                        if name in ROW_ENV_KW:
+                            ctx.broken.append("C12 k-fold-vs-alone check crashed on %s: %s" % (meta, info))
+                        else:
+                            skipped["%s/%s" % (name, dt)] = "not covered (no policy set-up for this env): " + info[-200:]
+    # an env whose k-fold pass never produced outputs: a loss of coverage for the AM routing envs (must work), a recorded
+    # limitation for the others (today jssp/fjsp: L2DAttnActor.pre_decoder_hook hands the cache over as a 1-tuple and
+    # AttentionModelDecoder.forward calls cached.batchify on it -> AttributeError for every num_starts > 1)
+    for name in names:
+        if not ctx.dist.get("policy_rows_cfg_%s" % name) and name not in failed_envs:
+            why = "; ".join("%s: %s" % kv for kv in skipped.items() if kv[0].startswith(name + "/"))[:400]
+            if name in ROW_REQUIRED_ENVS:
+                ctx.broken.append("C12 k-fold-vs-alone: no k-fold pass of env %s could be compared (%s)" % (name, why))
+            else:
+                ctx.notes.append("dynamic-embedding env %s: every k-fold pass raises, nothing to compare (%s)" % (name, why))
+    ctx.units["policy_rows_vs_instance_alone"] = {"envs": names, "configs_ok": n_cfg, "rows_checked": n_rows, "skipped": skipped}
+    ctx.count("policy_rows_checked", n_rows)
+
+
+
 def run_coqchk(ctx):
     from vt.common import COQ, sh
     rc, out = sh("coqchk -silent -o -Q theories RL4CO RL4CO.Properties.C12", cwd=COQ, timeout=900)
@@ -1139,6 +1281,20 @@ def replay(obj):
         bad = bad or nbad > 0
         print("property %s on the current tree" % ("FAILS" if bad else "holds"))
         return 1 if bad else 0
+    if obj.get("kind_") == "policy_row":
+        verdict, info = rows_vs_single(torch, obj["env"], obj["B"], obj["k"], obj["decode_type"], obj["seed"])
+        print("%s  B=%d k=%d %s seed=%d policy=%s" % (obj["env"], obj["B"], obj["k"], obj["decode_type"], obj["seed"], obj.get("policy")))
+        print("recorded: row %s (j=%s, instance %s): worst deviation %s at step %s" % (
+            obj.get("row"), obj.get("j"), obj.get("instance"), obj.get("worst_abs_deviation"), obj.get("worst_step")))
+        if verdict == "fail":
+            print("observed now: row %s (instance %s): %s; worst deviation %s at step %s" % (
+                info.get("row"), info.get("instance"), info.get("reason"), info.get("worst_abs_deviation"), info.get("worst_step")))
+            print("  log-probs of the row          :", info.get("observed_logp"))
+            print("  same actions on instance alone:", info.get("expected_logp"))
+        else:
+            print("observed now: %s" % verdict)
+        print("property %s on the current tree" % ("FAILS" if verdict == "fail" else "holds"))
+        return 1 if verdict == "fail" else 0
     if obj.get("kind_") != "starts":
         import json
         print(json.dumps(obj, indent=1)[:3000])
